@@ -1,5 +1,6 @@
 """LOCK rule family: guarded-by, with-only, acquisition order / re-acquisition, deny-list under a lock."""
 import ast
+from .terms import crepr
 
 from .loader import AnalysisError, walk_own, walk_expr
 from .dataflow import key, varkey, unawait, vars_in
@@ -254,7 +255,7 @@ def rule_order(ctx, R, roles, li, rule="LOCK-order"):
                             edges.setdefault((h, lk), (f, n, "call to " + callee.qualname))
     io = roles.io_cls.qualname
     tl, sl = (io, "_transport_lock"), (io, "_store_lock")
-    for (a, b), (f, n, how) in sorted(edges.items(), key=lambda kv: repr(kv[0])):
+    for (a, b), (f, n, how) in sorted(edges.items(), key=lambda kv: crepr(kv[0])):
         sub = "%s->%s|%s" % (a[1], b[1], f.qualname)
         if a == b:
             R.fail(rule, sub, "%s is re-acquired while already held (%s at `%s`): non-reentrant lock, certain self-deadlock" % (a[1], how, norm_stmt(n.exprs()[0])), f.loc(n.ast))
